@@ -342,6 +342,9 @@ func ObserveList(s stackage.Stack, m *ListModel) (aspect, detail string) {
 		return a, d
 	}
 	// capacity arithmetic
+	if s.CapReached() != s.IsFull() {
+		return "Cap", fmt.Sprintf("IsFull()=%v but its deprecated spelling CapReached()=%v (cap %d len %d)", s.IsFull(), s.CapReached(), m.Cap, L)
+	}
 	if m.Cap > 0 {
 		if s.Cap() != m.Cap || s.Avail() != m.Cap-L || s.IsFull() != (L == m.Cap) {
 			return "Cap", fmt.Sprintf("Cap()=%d Avail()=%d IsFull()=%v with cap %d len %d", s.Cap(), s.Avail(), s.IsFull(), m.Cap, L)
